@@ -147,6 +147,7 @@ type Engine struct {
 	cwd           string
 	absKernel     []absKernelCall
 	wgAdd         int
+	wgSym         *term.T
 	lastTaskCount int
 	notExist      *Value
 	pinned        map[string]uint64
